@@ -79,6 +79,70 @@ def judge(stream: list[dict], batch_size: int, flt: dict | None) -> tuple[str, d
     return "held", None, info
 
 
+def judge_sequenced(stream: list[dict], batch_size: int, flt: dict | None
+                    ) -> tuple[str, dict | None, dict]:
+    """The same stream consumed by the real sequencer (sequence_otel_job_id_streams), on
+    stores that may hold disconnected traces: every connected trace group must come out as
+    exactly one PV job holding exactly its spans; a disconnected group is skipped and must
+    not affect the groups after it."""
+    from tel2puml.otel_to_pv.sequence_otel import sequence_otel_job_id_streams
+    info: dict = {}
+    model = store.model_first_wins(stream)
+    by: dict[str, dict[str, dict[str, dict]]] = {}
+    for s in model.values():
+        by.setdefault(s["job_name"], {}).setdefault(s["job_id"], {})[s["event_id"]] = s
+    if flt is not None:
+        want = {n: {j: by[n][j] for j in ids if j in by.get(n, {})} for n, ids in flt.items()}
+        want = {n: v for n, v in want.items() if v}
+    else:
+        want = by
+
+    def connected(group: dict[str, dict]) -> bool:
+        roots = [s for s in group.values() if s["parent_event_id"] is None]
+        return len(roots) == 1 and all(s["parent_event_id"] in group for s in group.values()
+                                       if s["parent_event_id"] is not None)
+    expect = {(n, j): set(g) for n, js in want.items() for j, g in js.items() if connected(g)}
+    info["disconnected_groups"] = sum(len(js) for js in want.values()) - len(expect)
+    info["disconnected_not_last"] = 0
+    for n, js in want.items():
+        order = sorted(js)
+        for i, j in enumerate(order):
+            if (n, j) not in expect and any((n, k) in expect for k in order[i + 1:]):
+                info["disconnected_not_last"] += 1
+    holder = None
+    got: dict[tuple[str, str], list[set]] = {}
+    try:
+        holder = store.new_holder("sqlite:///:memory:", batch_size)
+        store.ingest(holder, stream)
+        for name, traces in holder.stream_data({k: set(v) for k, v in flt.items()} if flt
+                                               else None):
+            for job in sequence_otel_job_id_streams(traces):
+                evs = list(job)
+                if not evs:
+                    continue
+                jid = evs[0]["jobId"]
+                got.setdefault((name, jid), []).append({e["eventId"] for e in evs})
+    except Exception as exc:
+        return f"violated:exception:{type(exc).__name__}", {"exc": repr(exc)[:300]}, info
+    finally:
+        if holder is not None:
+            holder.engine.dispose()
+    for k, jobs in got.items():
+        if len(jobs) > 1:
+            return "violated:trace-sequenced-twice", {"trace": list(k)}, info
+        if k not in expect:
+            return "violated:disconnected-or-unselected-trace-sequenced", {"trace": list(k)}, info
+        if jobs[0] != expect[k]:
+            return "violated:sequenced-job-has-other-spans", {
+                "trace": list(k), "got": sorted(jobs[0]), "want": sorted(expect[k])}, info
+    missing = sorted(set(expect) - set(got))
+    if missing:
+        return "violated:connected-trace-not-delivered-to-sequencing", {
+            "missing": [list(m) for m in missing[:5]]}, info
+    info["sequenced_jobs"] = len(got)
+    return "held", None, info
+
+
 def gen_case(rng: random.Random) -> tuple[list[dict], int, dict | None, dict]:
     names = rng.sample(["a", "b", "c d", "e"], rng.randint(1, 4))
     st = store.gen_store(rng, rng.randint(1, 12), names, ["A", "B", "C"], 12, hostile=False)
@@ -139,6 +203,31 @@ def run_chunk(case: dict) -> dict:
         if v.startswith("violated") and len(fails) < 4:
             fails.append({"symptom": v[9:], "detail": d, "stream": stream, "batch_size": b,
                           "filter": eff, "meta": meta})
+        if idx % 3 == 0:
+            # second observation point: the real consumer, on a store that may hold broken
+            # traces (state before cleaning)
+            names = rng.sample(["a", "b", "c d"], rng.randint(1, 3))
+            st2 = store.gen_store(rng, rng.randint(2, 10), names, ["A", "B", "C"], 6,
+                                  hostile=True)
+            for t2 in st2["traces"]:
+                # names consistent inside a trace (state after the renaming step of
+                # cleaning): only structural breakage is left in the store
+                for sp in t2["spans"]:
+                    sp["job_name"] = t2["name"]
+            stream2 = store.flatten(st2, rng, rng.choice(["by-trace", "shuffled"]))
+            b2 = rng.choice([1, 2, 3, 1000])
+            v2, d2, info2 = judge_sequenced(stream2, b2, None)
+            n += 1
+            bump("sequenced:" + v2.split(":")[0])
+            bump("sequenced_jobs", info2.get("sequenced_jobs", 0))
+            bump("disconnected_groups_skipped", info2.get("disconnected_groups", 0))
+            bump("disconnected_groups_followed_by_connected_ones",
+                 info2.get("disconnected_not_last", 0))
+            distinct.add(core.digest([[(s["event_id"], s["parent_event_id"], s["job_name"])
+                                       for s in stream2], b2, "seq"]))
+            if v2.startswith("violated") and len(fails) < 4:
+                fails.append({"symptom": v2[9:], "detail": d2, "stream": stream2,
+                              "batch_size": b2, "filter": None, "meta": {"sequenced": True}})
         if not samples and meta["traces"] in (3, 4) and eff:
             samples.append({"batch_size": b, "filter": eff, "order": meta["order"],
                             "spans": [[s["job_name"], s["job_id"], s["event_id"],
@@ -154,7 +243,9 @@ def main(tier: str, seed: int) -> int:
              "trace-wise / interleaved / reversed / shuffled (plus re-delivered duplicate "
              "spans), batch sizes {1,2,3,5,7,1000}; streamed without filter and with "
              "name->trace-id filters (subset per name, empty for a name, absent name); the "
-             "nested generators are consumed the way the sequencer does. distinct non-trivial "
+             "nested generators are consumed the way the sequencer does; every third case also "
+             "pipes a store that still holds broken traces (dangling parents, mixed names) "
+             "through the real sequence_otel_job_id_streams. distinct non-trivial "
              "= distinct (store, batch, filter) with more than one trace")
     chk.assumptions = ["model: first occurrence per span id, children = spans naming it as parent",
                        "workflow names are consistent inside a trace (state after cleaning)"]
@@ -181,10 +272,15 @@ def main(tier: str, seed: int) -> int:
     chk.distinct = {str(i) for i in range(distinct)}
     if chk.extra.get("cases_crossing_a_cursor_batch", 0) == 0:
         chk.note_inconclusive("no case crossed a cursor batch boundary")
+    if chk.extra.get("disconnected_groups_followed_by_connected_ones", 0) == 0:
+        chk.note_inconclusive("no disconnected trace was followed by a connected one")
     return chk.finish()
 
 
 def run_replay(case: dict) -> dict:
+    if case.get("meta", {}).get("sequenced"):
+        v, d, info = judge_sequenced(case["stream"], case["batch_size"], case["filter"])
+        return {"status": "ok", "verdict": v, "detail": d}
     v, d, info = judge(case["stream"], case["batch_size"], case["filter"])
     return {"status": "ok", "verdict": v, "detail": d}
 
